@@ -14,7 +14,7 @@ package main
 //
 // Diagnostics (not part of the checked runs): `vh ... c07 burst` sends every stream in one write and applies only the
 // crash/hang/leak oracles (verdicts then depend on scheduling); env C07_ONLY=os|req restricts the servers, C07_DUMP=1
-// adds the crash dump of every lost child as a diag line.
+// adds the crash dump of every lost child as a diag line, C07_FDDEBUG=1 appends the descriptor listings to fd-leak reasons.
 
 import (
 	"bufio"
@@ -628,6 +628,58 @@ type c07Exec struct {
 	baseG  int
 	baseFD int
 	oldGC  int
+
+	baseGL   []string
+	baseList string // C07_FDDEBUG only
+}
+
+// c07Goroutines: where the goroutines other than the caller are (function names only: stable text).
+func c07Goroutines() []string {
+	buf := make([]byte, 1<<20)
+	buf = buf[:runtime.Stack(buf, true)]
+	var out []string
+	for i, g := range strings.Split(string(buf), "\n\n") {
+		if i == 0 {
+			continue // the calling goroutine
+		}
+		lines := strings.Split(g, "\n")
+		if len(lines) < 2 {
+			continue
+		}
+		state := ""
+		if a, b := strings.Index(lines[0], "["), strings.Index(lines[0], "]"); a >= 0 && b > a {
+			state = strings.SplitN(lines[0][a+1:b], ",", 2)[0]
+		}
+		var fns []string
+		for _, l := range lines[1:] {
+			if strings.HasPrefix(l, "\t") || strings.HasPrefix(l, "created by") {
+				continue
+			}
+			if j := strings.LastIndex(l, "("); j > 0 {
+				l = l[:j]
+			}
+			if strings.HasPrefix(l, "runtime.") || strings.HasPrefix(l, "sync.") || strings.HasPrefix(l, "internal/") {
+				continue
+			}
+			fns = append(fns, l)
+			if len(fns) == 2 {
+				break
+			}
+		}
+		out = append(out, state+" in "+strings.Join(fns, " < "))
+	}
+	sort.Strings(out)
+	return out
+}
+
+func c07ListFDs() string {
+	ents, _ := os.ReadDir("/proc/self/fd")
+	var out []string
+	for _, e := range ents {
+		t, _ := os.Readlink("/proc/self/fd/" + e.Name())
+		out = append(out, e.Name()+"="+t)
+	}
+	return strings.Join(out, ",")
 }
 
 func c07Start(srv string, alloc bool, work string) (*c07Exec, error) {
@@ -647,7 +699,11 @@ func c07Start(srv string, alloc bool, work string) (*c07Exec, error) {
 	}
 	e.oldGC = debug.SetGCPercent(-1) // a finalizer must not close a leaked descriptor for us
 	e.baseG = runtime.NumGoroutine()
+	e.baseGL = c07Goroutines()
 	e.baseFD = c11CountFDs()
+	if os.Getenv("C07_FDDEBUG") != "" {
+		e.baseList = c07ListFDs()
+	}
 	var ss *c11SrvSide
 	e.cli, ss = c11NewDuplex()
 	var err error
@@ -713,11 +769,32 @@ func (e *c07Exec) finish(wait func()) (snap map[string]string, problems []string
 		time.Sleep(time.Millisecond)
 	}
 	if n := runtime.NumGoroutine(); n > e.baseG {
-		problems = append(problems, fmt.Sprintf("goroutine-leak: %d goroutines left behind after Serve returned", n-e.baseG))
+		// NumGoroutine also counts goroutines the runtime starts lazily for itself (cleanup/finalizer runners); those do
+		// not show in a stack dump. Only goroutines that are visible there and were not there before are a leak.
+		var extra []string
+		before := map[string]int{}
+		for _, g := range e.baseGL {
+			before[g]++
+		}
+		for _, g := range c07Goroutines() {
+			if before[g] > 0 {
+				before[g]--
+			} else {
+				extra = append(extra, g)
+			}
+		}
+		if len(extra) > 0 {
+			problems = append(problems, fmt.Sprintf("goroutine-leak: %d goroutines left behind after Serve returned: %s", len(extra), strings.Join(extra, "; ")))
+		}
 	}
 	if e.srv == "os" {
-		if n := c11SettleFDs(e.baseFD); n != e.baseFD {
+		// (a count below the baseline means that a descriptor which existed before the server was started has gone: not
+		// something the server can have leaked)
+		if n := c11SettleFDs(e.baseFD); n > e.baseFD {
 			problems = append(problems, fmt.Sprintf("fd-leak: %d descriptors more than before the session after Serve returned", n-e.baseFD))
+			if e.baseList != "" {
+				problems[len(problems)-1] += " [before: " + e.baseList + " after: " + c07ListFDs() + "]"
+			}
 		}
 	}
 	return snap, problems
@@ -847,10 +924,11 @@ type c07Ref struct {
 }
 
 type c07Child struct {
-	base    string
-	corpus  map[string][]*c07Session
-	garbage [][]byte
-	refs    map[string]*c07Ref
+	base     string
+	corpus   map[string][]*c07Session
+	garbage  [][]byte
+	refs     map[string]*c07Ref
+	refTries map[string]int
 }
 
 func c07ChildMain(args []string) {
@@ -858,7 +936,7 @@ func c07ChildMain(args []string) {
 		os.Exit(2)
 	}
 	seed, _ := strconv.ParseInt(args[1], 10, 64)
-	st := &c07Child{base: args[0], garbage: c07Garbage(seed), refs: map[string]*c07Ref{},
+	st := &c07Child{base: args[0], garbage: c07Garbage(seed), refs: map[string]*c07Ref{}, refTries: map[string]int{},
 		corpus: map[string][]*c07Session{"os": c07Corpus("os"), "req": c07Corpus("req")}}
 	childLoop(st.handle)
 }
@@ -897,6 +975,10 @@ func (st *c07Child) ref(srv string, alloc bool, si int) *c07Ref {
 			}
 		}
 		r.snaps[g] = snap
+	}
+	if r.err != "" && st.refTries[key] < 3 { // a failed reference is recomputed (it would poison every later case of this child)
+		st.refTries[key]++
+		return r
 	}
 	st.refs[key] = r
 	return r
